@@ -117,43 +117,53 @@ func c16CtrlExec(s verifc16.Scn) string {
 	if len(s.Spec) != 3 || len(s.Pkgs) == 0 {
 		return "BAD-SCN"
 	}
+	// a scenario is the history of an operator process of its own (see verifc16.NewEpoch)
+	verifc16.NewEpoch()
 	c := &verifc16.Client{Scheme_: c16Scheme, Uniq: s.Uniq}
 	puller := &c16Puller{scn: &s}
 	var gc *GenericPackageController
 	var hashMod int32
 	cluster := s.Scope == "cluster"
-	if cluster {
-		gc = NewClusterPackageController(c, c, logr.Discard(), c16Scheme, puller, nil, &hashMod, nil)
-	} else {
-		gc = NewPackageController(c, c, logr.Discard(), c16Scheme, puller, nil, &hashMod, nil)
+	dep := &c16Deployer{}
+	sink := &c16Sink{}
+	// start (and, op "restart", re-start) the operator: everything the controller, its sub-reconcilers and the
+	// package deployer hold in memory is built anew by the real constructors; the API (c) stays
+	start := func() {
+		if cluster {
+			gc = NewClusterPackageController(c, c, logr.Discard(), c16Scheme, puller, nil, &hashMod, nil)
+		} else {
+			gc = NewPackageController(c, c, logr.Discard(), c16Scheme, puller, nil, &hashMod, nil)
+		}
+		gc.SetEnvironment(verifc16.PackageEnv(s.Env))
+		dep.inner = gc.unpackReconciler.packageDeployer
+		gc.unpackReconciler.packageDeployer = dep
+		sink.environmentSink = gc.unpackReconciler.environmentSink
+		gc.unpackReconciler.environmentSink = sink
 	}
-	gc.SetEnvironment(verifc16.PackageEnv(s.Env))
-	dep := &c16Deployer{inner: gc.unpackReconciler.packageDeployer}
-	gc.unpackReconciler.packageDeployer = dep
-	sink := &c16Sink{environmentSink: gc.unpackReconciler.environmentSink}
-	gc.unpackReconciler.environmentSink = sink
+	start()
 
-	spec := append([]int(nil), s.Spec...)
+	// the Packages this operator serves: Package 0 (initial spec s.Spec) and Packages 1.. (s.More)
+	specs := [][]int{append([]int(nil), s.Spec...)}
+	for _, m := range s.More {
+		if len(m) != 3 {
+			return "BAD-SCN"
+		}
+		specs = append(specs, append([]int(nil), m...))
+	}
 	// spec.paused of the Package: a history dimension of the C09 stream pkgpause only
 	pkgpause := s.Mode == "pkgpause"
-	paused := pkgpause && s.Paused
+	paused := make([]bool, len(specs))
+	paused[0] = pkgpause && s.Paused
 	hashes := map[string]string{}
-	om := metav1.ObjectMeta{Name: "p", UID: types.UID("pkg-uid"), Generation: 1, ResourceVersion: "1"}
-	req := ctrl.Request{NamespacedName: types.NamespacedName{Name: "p"}}
-	if !cluster {
-		om.Namespace = "ns"
-		req.Namespace = "ns"
-		c.Pkg = &corev1alpha1.Package{ObjectMeta: om}
-	} else {
-		c.Pkg = &corev1alpha1.ClusterPackage{ObjectMeta: om}
+	reqs := make([]ctrl.Request, len(specs))
+	valid := func(i int) bool {
+		return specs[i][0] >= 0 && specs[i][0] < len(s.Pkgs)
 	}
-	valid := func() bool {
-		return spec[0] >= 0 && spec[0] < len(s.Pkgs)
-	}
-	applySpec := func() {
+	// applySpec writes the spec of Package i (which must be the selected one) into the API
+	applySpec := func(i int) {
 		ps := corev1alpha1.PackageSpec{
-			Image: verifc16.ImageName(spec[0]), Config: verifc16.ConfigRaw(spec[1]), Component: verifc16.ComponentName(spec[2]),
-			Paused: paused,
+			Image: verifc16.ImageName(specs[i][0]), Config: verifc16.ConfigRaw(specs[i][1]), Component: verifc16.ComponentName(specs[i][2]),
+			Paused: paused[i],
 		}
 		var acc adapters.GenericPackageAccessor
 		switch p := c.Pkg.(type) {
@@ -164,19 +174,49 @@ func c16CtrlExec(s verifc16.Scn) string {
 			p.Spec = ps
 			acc = &adapters.GenericClusterPackage{ClusterPackage: *p.DeepCopy()}
 		}
-		label := c16SpecLabel(spec)
-		if paused {
+		label := c16SpecLabel(specs[i])
+		if paused[i] {
 			label += "p" // the spec hash covers spec.paused
 		}
 		hashes[acc.GetSpecHash(&hashMod)] = label
 	}
-	if !valid() {
-		return "BAD-SCN"
+	for i := range specs {
+		if !valid(i) {
+			return "BAD-SCN"
+		}
+		c.Select(i)
+		om := metav1.ObjectMeta{Name: "p", UID: types.UID("pkg-uid"), Generation: 1, ResourceVersion: "1"}
+		if i > 0 {
+			om.UID = types.UID(fmt.Sprintf("pkg-uid-%d", i))
+		}
+		if !cluster {
+			om.Namespace = "ns"
+			if i > 0 {
+				om.Namespace = fmt.Sprintf("ns%d", i)
+			}
+			c.Pkg = &corev1alpha1.Package{ObjectMeta: om}
+		} else {
+			if i > 0 {
+				om.Name = fmt.Sprintf("p%d", i)
+			}
+			c.Pkg = &corev1alpha1.ClusterPackage{ObjectMeta: om}
+		}
+		reqs[i] = ctrl.Request{NamespacedName: types.NamespacedName{Name: om.Name, Namespace: om.Namespace}}
+		applySpec(i)
 	}
-	applySpec()
+	c.Select(0)
 	ctx := context.Background()
 	var outs []string
 	for _, op := range s.Ops {
+		k := op.P
+		if k < 0 || k >= len(specs) {
+			return "BAD-SCN"
+		}
+		if k != 0 && op.Op != "edit" && op.Op != "pass" {
+			return "BAD-SCN"
+		}
+		c.Select(k)
+		spec := specs[k]
 		switch op.Op {
 		case "edit":
 			switch op.F {
@@ -191,27 +231,33 @@ func c16CtrlExec(s verifc16.Scn) string {
 			default:
 				return "BAD-OP"
 			}
-			if !valid() {
+			if !valid(k) {
 				return "BAD-SCN"
 			}
 			if op.F != "meta" {
 				c.Pkg.SetGeneration(c.Pkg.GetGeneration() + 1)
 			}
-			applySpec()
+			applySpec(k)
 			outs = append(outs, "e")
 		case "pause", "unpause":
 			if !pkgpause {
 				return "BAD-OP"
 			}
-			paused = op.Op == "pause"
+			paused[k] = op.Op == "pause"
 			c.Pkg.SetGeneration(c.Pkg.GetGeneration() + 1)
-			applySpec()
-			outs = append(outs, map[bool]string{true: "p+", false: "p-"}[paused])
+			applySpec(k)
+			outs = append(outs, map[bool]string{true: "p+", false: "p-"}[paused[k]])
 		case "tp":
 			if !pkgpause || !c.ThirdParty(op.F) {
 				return "BAD-OP"
 			}
 			outs = append(outs, "tp")
+		case "restart":
+			if pkgpause {
+				return "BAD-OP"
+			}
+			start()
+			outs = append(outs, "R")
 		case "pass":
 			c.ResetPass()
 			puller.fail, puller.pulls, sink.fail, dep.n = false, nil, false, 0
@@ -224,7 +270,7 @@ func c16CtrlExec(s verifc16.Scn) string {
 			default:
 				c.Fault = op.Fault
 			}
-			res, err := gc.Reconcile(ctx, req)
+			res, err := gc.Reconcile(ctx, reqs[k])
 			r := "ok"
 			switch {
 			case err != nil:
@@ -256,7 +302,7 @@ func c16CtrlExec(s verifc16.Scn) string {
 			if pkgpause {
 				// pp = spec.paused of the Package during the pass, odp = spec.paused of the stored
 				// ObjectDeployment after it, sw = what each accepted Update of the controller itself changed
-				line += fmt.Sprintf(" pp=%d odp=%s sw=%s", btoi(paused), c16ODPausedStr(c.OD), strings.Join(c.Sync, ","))
+				line += fmt.Sprintf(" pp=%d odp=%s sw=%s", btoi(paused[k]), c16ODPausedStr(c.OD), strings.Join(c.Sync, ","))
 			}
 			outs = append(outs, line)
 		default:
@@ -275,13 +321,23 @@ func c16CtrlTags(s verifc16.Scn, out string) []string {
 			tags = append(tags, t)
 		}
 	}
-	for _, p := range s.Pkgs {
+	for i, p := range s.Pkgs {
 		add("load=" + p.Load)
 		add("render=" + p.Render)
+		add("schema=" + p.Schema)
 		for _, c := range p.Cons {
 			add("con=" + c)
 		}
+		for _, q := range s.Pkgs[:i] {
+			if p.Name != "" && p.Name == q.Name {
+				add("versions-of-one-package")
+				if p.Schema != q.Schema {
+					add("versions-differ-in-schema")
+				}
+			}
+		}
 	}
+	add(fmt.Sprintf("packages=%d", 1+len(s.More)))
 	for _, op := range s.Ops {
 		switch op.Op {
 		case "edit":
@@ -402,10 +458,65 @@ func TestVerifC16Ctrl(t *testing.T) {
 			}
 		}
 	}
+	// d. one operator process, several VERSIONS of one package: two images whose manifests carry the same
+	//    package name and every ordered pair of config schemas (equal / stricter / looser / other type / other
+	//    default), every config, as
+	//      - one Package moving from version 0 to version 1 and back,
+	//      - two Packages (own namespaces) on version 0 and version 1, installed one after the other,
+	//      - the same with the versions living in components of the same name,
+	//    with and without an operator restart in between and with a config edit at the end; the control group
+	//    (images that are packages of their own: different names) runs through the same histories.
+	restart := verifc16.Op{Op: "restart"}
+	on := func(p int, op verifc16.Op) verifc16.Op { op.P = p; return op }
+	for _, scope := range []string{"ns", "cluster"} {
+		for _, sa := range verifc16.Schemas {
+			for _, sb := range verifc16.Schemas {
+				for _, name := range []string{"f", ""} {
+					for cfg := 0; cfg <= 4; cfg++ {
+						for _, comp := range []int{0, 1} {
+							for _, rs := range []bool{false, true} {
+								if scope == "cluster" && (comp == 1 || name == "") {
+									continue
+								}
+								base := verifc16.Scn{Scope: scope, Env: verifc16.Env{K8sNew: true}, Uniq: "1",
+									Pkgs: []verifc16.Pkg{{Load: "ok", Render: "ok", Comps: true, Name: name, Schema: sa},
+										{Load: "ok", Render: "ok", Comps: true, Name: name, Schema: sb}}}
+								mid := []verifc16.Op{}
+								if rs {
+									mid = []verifc16.Op{restart}
+								}
+								// one Package: v0 -> v1 -> v0, then another config
+								s := base
+								s.Spec = []int{0, cfg, comp}
+								s.Ops = append(append([]verifc16.Op{pass, edit("image", 1)}, mid...),
+									pass, pass, edit("image", 0), pass, edit("config", (cfg+1)%5), pass, edit("image", 1), pass)
+								run(s)
+								// two Packages: P0 on v0, P1 on v1
+								s = base
+								s.Spec = []int{0, cfg, comp}
+								s.More = [][]int{{1, cfg, comp}}
+								s.Ops = append(append([]verifc16.Op{pass}, mid...),
+									on(1, pass), pass, on(1, pass), on(1, edit("image", 0)), on(1, pass), edit("image", 1), pass,
+									on(1, edit("config", (cfg+2)%5)), on(1, pass))
+								run(s)
+								n1 += 2
+							}
+						}
+					}
+				}
+			}
+		}
+	}
 	r.Extra["exhaustive_count"] = n1
 	n := r.Pick(6000, 90000)
 	for i := 0; i < n; i++ {
 		run(verifc16.RandomScn(r.Rng, "ctrl"))
+	}
+	// seeded random histories of 1-3 Packages over 2-4 images that are versions of 1-2 packages with random
+	// schemas, restarts and faults mixed in
+	n = r.Pick(4000, 60000)
+	for i := 0; i < n; i++ {
+		run(verifc16.RandomVersionScn(r.Rng))
 	}
 }
 
